@@ -174,6 +174,16 @@ fn run(op: &Op) -> (u64, usize) {
                 dg.f64(*v);
             }
         }
+        Op::Vx { d, n, lon, lat } => {
+            for i in 0..*n {
+                dg.f64(cdshealpix::largest_center_to_vertex_distance(*d, *lon + 1e-3 * i as f64, *lat));
+            }
+        }
+        Op::Hx { d, n, lon, lat } => {
+            for i in 0..*n {
+                dg.u64(nested::hash(*d, *lon + 1e-3 * i as f64, *lat));
+            }
+        }
         Op::Zh { d, lon } => dg.u64(nested::hash(*d, *lon, 2.0)),
         Op::Zd { lon } => dg.u64(nested::hash(30, *lon, 0.5)),
         Op::Zc { d } => {
